@@ -248,19 +248,22 @@ def _task(args):
 # ---------------------------------------------------------------------------
 # parent side
 
-def _frontier(space, k, target):
-    """Expand the choice tree breadth-first in the parent until at least `target`
-    subtree roots exist; the executions done here are re-done by the workers'
-    ancestors?  No: nodes expanded here are *counted here* and their children become
-    tasks, so every node is executed exactly once."""
+def _frontier(space, k, target, cap=6000):
+    """Expand the choice tree in the parent so that the subtrees handed to workers are
+    balanced: a child is handed off only when its last deviation is a costed one and
+    its remaining deviation budget is <= 1 (such subtrees have similar, small size);
+    children reached through a free alternative, or with a larger remaining budget,
+    are expanded here.  Every node is executed exactly once (here or in one worker)."""
     st = _Stats()
-    level = [()]
+    level = [((), False)]
+    roots = []
     done_nodes = 0
-    while level and len(level) < target and done_nodes < 400:
+    while level:
         nxt = []
-        for p in level:
-            sub = _Stats()
-            # run just this node, collect children instead of descending
+        for p, _ in level:
+            if done_nodes >= cap:
+                roots.append(p)
+                continue
             ch = Chooser(p)
             case = space.run(ch)
             tr = ch.trace
@@ -280,7 +283,8 @@ def _frontier(space, k, target):
             if case.fails:
                 st.nfail += 1
                 f = case.fails[0]
-                st.fails.append((ch.choices(), list(ch.labels), f[0], _short(f[1]), _short(f[2])))
+                if len(st.fails) < 4 * MAX_FAILS_PER_TASK:
+                    st.fails.append((ch.choices(), list(ch.labels), f[0], _short(f[1]), _short(f[2])))
             if case.sample is not None and len(st.samples) < 1:
                 st.samples.append({'choices': ch.labels or ['(all defaults)'], 'case': case.sample})
             cost = sum(1 for t in tr[:len(p)] if t[3] and t[2])
@@ -291,11 +295,15 @@ def _frontier(space, k, target):
                 if n < 2 or (costed and cost + 1 > k):
                     continue
                 head = tuple(t[2] for t in tr[:i])
+                budget = k - cost - (1 if costed else 0)
                 for alt in range(1, n):
-                    nxt.append(head + (alt,))
                     st.edges += 1
+                    if costed and budget <= 1:
+                        roots.append(head + (alt,))
+                    else:
+                        nxt.append((head + (alt,), costed))
         level = nxt
-    return st, level
+    return st, roots
 
 
 def run_spaces(spaces, log=None):
@@ -326,7 +334,7 @@ def run_spaces(spaces, log=None):
     if tasks:
         if NPROC > 1:
             with ctx.Pool(NPROC) as pool:
-                for kind, si, res in pool.imap_unordered(_task, tasks, chunksize=1):
+                for kind, si, res in pool.imap_unordered(_task, tasks, chunksize=max(1, min(64, len(tasks) // (NPROC * 32)))):
                     _merge(agg[si], kind, res)
         else:
             for t in tasks:
